@@ -187,7 +187,7 @@ func cmdWorker(args []string) int {
 	maxRuns := fs.Uint64("runs", 0, "")
 	shrink := fs.Duration("shrink", 20*time.Second, "")
 	outDir := fs.String("out", "", "scratch dir for hash files")
-	replayDir := fs.String("replays", filepath.Join(verifRoot(), "replays"), "")
+	replayDir := fs.String("replays", envOr("VERIF_REPLAYS_DIR", filepath.Join(verifRoot(), "replays")), "")
 	profile := fs.String("profile", "", "pin one profile")
 	fs.Parse(args)
 	startWatchdog(90 * time.Second)
